@@ -81,6 +81,37 @@ def show_table(t):
     return {f"path={'set' if c[0] else 'empty'},authority={'set' if c[1] else 'empty'}": [show(x) for x in v] for c, v in t.items()}
 
 
+class KeyFromCache(Exception):
+    pass
+
+
+def expand_side(model, fi, entries, obj):
+    """[(facts, components)] with every component that is a tuple-valued property of `obj` replaced by that property's own
+    components (one entry per return path of the property, its path facts added)."""
+    out = []
+    for facts, comps in entries:
+        alts = [(dict(facts), [])]
+        for c in comps:
+            if c[0] == "attr" and c[1] == obj and model.has_func(f"_url.URL.{c[2]}") and \
+                    (model.func(f"_url.URL.{c[2]}").memo == "cached_property" or
+                     any(getattr(d, "id", getattr(d, "attr", "")) == "property" for d in model.func(f"_url.URL.{c[2]}").decorators)):
+                try:
+                    sub = key_of_value(model, fi, facts, c, obj)
+                except AnalysisError:
+                    sub = None
+                if sub:
+                    nxt = []
+                    for f0, acc in alts:
+                        for f2, comps2 in sub:
+                            if all(f0.get(k, v) == v for k, v in f2.items()):
+                                nxt.append(({**f0, **f2}, acc + list(comps2)))
+                    alts = nxt
+                    continue
+            alts = [(f0, acc + [c]) for f0, acc in alts]
+        out.extend((f0, tuple(acc)) for f0, acc in alts)
+    return out
+
+
 def key_of_value(model, fi, facts, v, obj, depth=0):
     """[(facts, components)] for a key expression: a tuple display, or a (memoised) property returning one."""
     if v[0] == "tuple":
@@ -95,6 +126,9 @@ def key_of_value(model, fi, facts, v, obj, depth=0):
                 out.append(({rename_obj(k, ("param", "self"), obj): vv for k, vv in f2.items()},
                             tuple(rename_obj(c, ("param", "self"), obj) for c in comps)))
         return out
+    if any(t[0] == "attr" and t[2] == "_cache" for t in walk(v)):
+        raise KeyFromCache(f"{fi.qual}: the comparison key {show(v)[:70]} is read from the object's cache: it depends on which "
+                           "accessors were used before (pickling, copying), not only on the URL's value")
     raise AnalysisError(f"{fi.qual}: comparison key {show(v)} is neither a tuple display nor a property returning one")
 
 
@@ -185,6 +219,13 @@ def cmp_rules(ctx: Ctx):
             rs.append(b)
         sides["self"].append((facts, tuple(ls)))
         sides["other"].append((facts, tuple(rs)))
+    try:
+        sides["self"] = expand_side(model, fi, sides["self"], S)
+        sides["other"] = expand_side(model, fi, sides["other"], O)
+    except KeyFromCache as e:
+        ctx.instance("CMP1")
+        ctx.ob("CMP1", fi.qual, "equality key", False, str(e), where(fi, fi.node))
+        return None
     t_self = cells_of(sides["self"], S, "__eq__ (self side)")
     t_other = cells_of(sides["other"], O, "__eq__ (other side)")
     ctx.instance("CMP5")
@@ -204,6 +245,14 @@ def cmp_rules(ctx: Ctx):
     for e in hr.by_kind("call"):
         if e.func == ("builtin", "hash") and e.args and e.args[0][0] == "tuple":
             entries.append((e.state.facts, e.args[0][1]))
+        elif e.func == ("builtin", "hash") and e.args and e.args[0][0] == "attr" and e.args[0][1] == S:
+            # hash(self.<property returning the key tuple>)
+            try:
+                entries.extend(key_of_value(model, hfi, e.state.facts, e.args[0], S))
+            except KeyFromCache as ex:
+                ctx.instance("CMP1")
+                ctx.ob("CMP1", hfi.qual, "hash key", False, str(ex), where(hfi, hfi.node))
+                return None
     if not entries:
         raise AnalysisError("_url.URL.__hash__: no hash(<tuple>) call found")
     t_hash = cells_of(entries, S, "__hash__")
